@@ -784,6 +784,10 @@ func (c *Config) marshalCore() {
 		s.SetOption(worktreeKey, c.Core.Worktree)
 	}
 
+	if c.Core.CommentChar != "" {
+		s.SetOption(commentCharKey, c.Core.CommentChar)
+	}
+
 	if c.Core.AutoCRLF != "" {
 		s.SetOption(autoCRLFKey, c.Core.AutoCRLF)
 	}
